@@ -79,8 +79,8 @@ CHECKS = {
    text="A reference list of outstanding NoWait requests decides, for each WaitForPendingACKs call, how many ACK datagrams it must consume (up to and including the first failing one), what it returns, and that it never waits on an empty socket; Close from 1-8 goroutines plus later calls must close the socket exactly once and send exactly one PID-clearing AUDIT_SET iff SetPID was used, without waiting; rule slices from GetRules are compared with snapshots after all later traffic; a request the transport refuses to send must be reported and leaves nothing pending. Found and guards the pendingAcks defect (repaired); one known finding (WaitForReply command with NoWait ACKs outstanding).",
    note="Trusted base: simulated kernel (in-order ACKs, one reused receive buffer), the reference list, Go race detector."),
  "C18": dict(engine="nlreal", cat="exploration", ref="§5 C18",
-   technique="the live kernel's verbatim echo of rejected NETLINK_ROUTE requests as framing oracle; porcupine linearizability check of the recorded Send history against a fetch-and-increment model; spoofed datagrams from a second netlink socket; guard-page inputs for the audit message parser; all under the race detector (ASan in thorough)",
-   text="What Send really put on the wire is read back from the kernel's NLMSG_ERROR echo (length, type, flags, port id, sequence, payload) for payload lengths 0..8970 and arbitrary flags/types outside the live rtnetlink range, also through caller-supplied read buffers that the reply fills exactly; concurrent Send histories {call, return, value} must be linearizable as a counter; datagrams of every length 0..64 (and longer, ACK-shaped) from a non-kernel sender must yield an error and no message while a later kernel reply is still received; AuditClient.Receive must reject < 16 bytes and otherwise return the header type and everything after 16 bytes, never reading past the input.",
+   technique="the live kernel's verbatim echo of rejected NETLINK_ROUTE requests as framing oracle; porcupine linearizability check of the recorded Send history against a strictly-increasing-counter model (plus an exact interval check for the largest history); spoofed datagrams from a second netlink socket; guard-page inputs for the audit message parser; all under the race detector (ASan in thorough)",
+   text="What Send really put on the wire is read back from the kernel's NLMSG_ERROR echo (length, type, flags, port id, sequence, payload) for payload lengths 0..8970 and arbitrary flags/types outside the live rtnetlink range, also through caller-supplied read buffers that the reply fills exactly; concurrent Send histories {call, return, value} must be linearizable as a strictly increasing counter (numbers taken by refused sends leave gaps), also while another goroutine's sends are refused by the kernel; datagrams of every length 0..64 (and longer, ACK-shaped) from a non-kernel sender must yield an error and no message while a later kernel reply is still received; AuditClient.Receive must reject < 16 bytes and otherwise return the header type and everything after 16 bytes, never reading past the input.",
    note="Trusted base: the running kernel's netlink_ack/echo behaviour and user-to-user delivery for root (verified on this image; inconclusive if sockets cannot be opened), porcupine v1.3.0."),
  "C09": dict(engine="logenc", cat="exploration", ref="§5 C09",
    technique="unique-value retention oracle over the JSON-flattened event + file-summary mirror oracle, generated events and an exhaustive st_mode sweep",
